@@ -86,3 +86,16 @@ Proof.
   destruct (n <? 0) eqn:E1; [apply Z.ltb_lt in E1; lia|].
   destruct (max_alloc <? n * elem) eqn:E2; [apply Z.ltb_lt in E2; lia|]. reflexivity.
 Qed.
+
+Lemma bind_ok_inv {E A B} (m : res E A) (f : A -> res E B) b :
+  out (bind m f) = Ok b -> exists a, out m = Ok a /\ out (f a) = Ok b.
+Proof.
+  unfold bind. destruct (out m) as [a|e|] eqn:Em; cbn; intros H; try discriminate.
+  exists a. split; [reflexivity|assumption].
+Qed.
+
+Lemma out_ret {E A} (a b : A) : out (@ret E A a) = Ok b -> a = b.
+Proof. cbn. intros H. inversion H. reflexivity. Qed.
+
+Lemma out_fail {E A} (e : E) (b : A) : out (@fail E A e) = Ok b -> False.
+Proof. cbn. discriminate. Qed.
